@@ -436,6 +436,35 @@ def inside_atomic_runs(ctx):
                          'state the same upgrade leaves outside a transaction (%s differ)' % diff, rep)
         elif 'evolved' in [x[0] for x in tr.signals()]:
             ctx.fail(None, 'upgrade inside the caller\'s transaction: evolved was sent although the run raised', rep)
+        # ... and with every RELEASE SAVEPOINT of the run failing in turn (a transaction of the executor cannot be
+        # finished): the run must raise, say evolving_failed and not evolved, and announce nothing afterwards
+        for k in range(tr.releases):
+            if ctx.time_left() < 20:
+                break
+            evocases.restore_db('at0')
+            evocases.install_v1(case)
+            trk = evorig.Trace(fail_release_at=k)
+            conn.disable_constraint_checking()
+            try:
+                with transaction.atomic():
+                    rk = evorig.run_evolver(trace=trk)
+            except Exception as e:
+                rk = ('error', e, trk)
+            finally:
+                conn.enable_constraint_checking()
+            if trk.failed_sql is None:
+                continue
+            ctx.count('inside_atomic:release_fault_runs')
+            names = [x[0] for x in trk.signals()]
+            repk = dict(rep, fault='RELEASE SAVEPOINT #%d' % k, signals=trk.signals())
+            ctx.case({'scenario': 'inside atomic', 'fault': 'release #%d' % k, 'signals': names,
+                      'mutations': [sigs.model_mutation(m) for m in case['muts']]}, nontrivial=True, sample_cap=2)
+            if rk[0] == 'ok' or 'evolved' in names:
+                ctx.fail(None, 'upgrade inside the caller\'s transaction, a transaction of the run could not be finished '
+                         '(RELEASE SAVEPOINT #%d failed): the run %s and sent %s'
+                         % (k, 'returned normally' if rk[0] == 'ok' else 'raised', names[-1:]), repk)
+            for p in check_trace(trk, rk[0]) + after_fault_problems(trk, rk[0]):
+                ctx.fail(None, 'upgrade inside the caller\'s transaction, RELEASE SAVEPOINT #%d fails: %s' % (k, p), repk)
 
 
 def other_database_runs(ctx):
